@@ -9,8 +9,8 @@ L = {
  "C03": ("Every construction call (single minterm, collections combined by max/min with don't-care / don't-change mixes and defaults, constants, variables with and without terms, primed and unprimed) executed at arbitrary points of fault-injected multi-client histories is evaluated at every point of its (small) domain against the dense-table model.", "section 11 C03"),
  "C04": ("UNION/INTERSECTION/DIFFERENCE/COMPLEMENT/CROSS with operands and result spread over every mix of boolean forests (same forest, other rule, distinct forest of the same rule), warm/evicting/dropped caches; results and operands re-evaluated everywhere against the pointwise model; declined combinations are alarms for MT-boolean forests.", "section 11 C04"),
  "C05": ("Arithmetic, comparison, min/max, DIST_MIN, DIST_INC, user unary maps and MIN/MAX_RANGE over MT int/real and EV+ operands inside seeded histories; result tables compared pointwise (exact on the dyadic sub-domain), documented errors expected where the model finds an invalid scalar case.", "section 11 C05"),
- "C06": ("Reference recount I4 (children + registered root edges incl. edges held inside the library + nodes under construction = recorded incoming count; deletion-policy state invariant), I6 at drain points (everything reclaimed once edges are released and caches cleared), handle-reuse self-check, counter-width excursions (260..70000 copies), tiny handle arrays, under optimistic / pessimistic / never-delete policies.", "section 11 C06"),
- "C07": ("Cache transparency decided three ways: every result equals the model under tiny/evicting/purged tables and seeded dropped hits; cache recount I5 (entries mentioning a node = its cache count); and a differential companion run of the same plan with another table style/stale policy and all tables cleared before every step, which must give identical observations and node counts; every 12th plan (3rd in thorough) is also re-run with exactly one compute-table hit dropped at sampled steps (first / middle / last hit) and must observe the same.", "section 11 C07 and 15.2"),
+ "C06": ("Reference recount I4 (children + registered root edges incl. edges held inside the library + nodes under construction = recorded incoming count; deletion-policy state invariant), I6 at drain points (everything reclaimed once edges are released and caches cleared), handle-reuse self-check, counter-width excursions (260..70000 copies), tiny handle arrays, under optimistic / pessimistic / never-delete policies. A second, stand-alone simulation (sim/ctr.cc) drives the real width-adapting counter_array behind the incoming counts with seeded link/unlink/swap/resize schedules biased to the 8/16/32-bit boundaries against a vector model.", "section 11 C06 and 15.2"),
+ "C07": ("Cache transparency decided three ways: every result equals the model under tiny/evicting/purged tables and seeded dropped hits; cache recount I5 (entries mentioning a node = its cache count); and a differential companion run of the same plan with another table style/stale policy and all tables cleared before every step, which must give identical observations and node counts; every 12th plan (3rd in thorough) is also re-run with exactly one compute-table hit dropped at sampled steps (first / middle / last hit) and must observe the same. A second, stand-alone simulation (sim/ctr.cc) drives the real width-adapting counter_array behind the cache counts with seeded increment/decrement/swap/resize schedules biased to the 8/16/32-bit boundaries against a vector model.", "section 11 C07 and 15.2"),
  "C08": ("REACHABLE_TRAD_FS / _NOFS / SATUR forward and backward on seeded relations and initial sets compared with an explicit BFS closure, algorithms compared with each other (same edge), repeated calls through the cached operation object while other clients churn and purge; reference recount includes the operation's internal edges.", "section 11 C08"),
  "C09": ("PRE_IMAGE / POST_IMAGE on boolean, MT-integer-distance and EV+ operands and VM/MV_MULTIPLY on integer and real vectors, every relation rule, compared pointwise with the relational definition inside seeded histories.", "section 11 C09"),
  "C10": ("COPY for every ordered pair of forest kinds of the same shape (incl. distinct same-kind forests, EV+ and index-set sources), compared pointwise through the scalar conversion; there-and-back must give the identical edge when the model says nothing is lost.", "section 11 C10"),
@@ -27,7 +27,7 @@ L = {
 NOTE = {
  "C18": "Chunk owner keeps the MSB of every slot clear (stricter than the managers require). In-forest use of the managers is additionally watched by the monitoring decorator in every other check.",
  "C20": "By-levels relations are a recorded defect (known_findings.txt) and exercised by a probe plan only; relation forests are identity- or quasi-reduced.",
- "C08": "Saturation over relation forests that are not identity-reduced and breadth-first search with input forest != result forest are recorded defects exercised by probe plans only; distance-valued reachability is not generated yet.",
+ "C08": "Saturation over relation forests that are not identity-reduced and breadth-first search with input forest != result forest are recorded defects exercised by probe plans only.",
 }
 DEFNOTE = "Bounded domains (sets <= 96 states, relations <= 24 states), sampled histories (seeded search, not enumeration); trusted base: the dense-table model and monitors in /verif/sim, AddressSanitizer, g++ 12. Configurations listed in known_findings.txt are generated only by their probe plans."
 checks = []
